@@ -30,6 +30,23 @@ fn main() {
         table.push_str(&format!("    (\"{n}\", x_{n}),\n", n = e.name));
     }
     table.push_str("];\n");
+    // ---- type-driven C33 table: (producer, transformer) pairs; the flow constructor returns the
+    // bound claimed by the observed collection's type, recorded here next to the generated code
+    table.push_str("pub const T33: &[(&str, simio::ExecFn, &str)] = &[\n");
+    for e in matrixdef::c33::entries().into_iter().filter(|e| e.idx % matrixdef::N_SHARDS == shard) {
+        let mut flow = hydro_lang::compile::builder::FlowBuilder::new();
+        let process = flow.process::<()>();
+        let claim = e4_flows::t33::build(e.idx, process.embedded_input("in0"));
+        let code = flow.with_process(&process, e.name.clone()).generate_embedded("e4_flows");
+        std::fs::write(format!("{out_dir}/{}.rs", e.name), prettyplease::unparse(&code)).unwrap();
+        mods.push_str(&format!(
+            "#[allow(unused_imports, unused_qualifications, missing_docs, non_snake_case, unused, clippy::all)]\npub mod {n} {{ include!(concat!(env!(\"OUT_DIR\"), \"/{n}.rs\")); }}\n",
+            n = e.name
+        ));
+        glue.push_str(&format!("exec_local!(x_{n}, {n}, [in0: i32], [out0]);\n", n = e.name));
+        table.push_str(&format!("    (\"{n}\", x_{n}, \"{claim}\"),\n", n = e.name));
+    }
+    table.push_str("];\n");
     std::fs::write(format!("{out_dir}/genmods.rs"), mods).unwrap();
     std::fs::write(format!("{out_dir}/matrix_glue.rs"), format!("{glue}{table}")).unwrap();
 }
